@@ -1,7 +1,7 @@
 """C05 - delegation check uses exactly the named role's keys and threshold."""
 import random
 
-from ..engines import delegation, inplace
+from ..engines import delegation, inplace, noise
 from ..monitors import boundary
 from ..refs import models
 
@@ -68,6 +68,8 @@ def run_shard(spec, rec, lib):
     for i in range(spec["count"]):
         case = delegation.gen_case(rng)
         model, out = judge(case, rec, lib)
+        if i % 25 == 7:
+            noise.tick(lib, rng, spec.get("scratch"))
         if i < 2:
             rec.sample({"case": delegation.brief(case), "model": model.as_json(), "observed": out.as_json()})
 
